@@ -541,29 +541,6 @@ mod harnesses {
         assert!(it.len() == 8 - main_len);
     }
 
-    /// C01: extend with a key that is present and still in the old table replaces the value, never the stored key
-    #[kani::proof]
-    #[kani::unwind(10)]
-    fn extend_keeps_stored_key_split() {
-        let mut m: HashMap<Tagged, u8, Seeded> = HashMap::with_hasher(Seeded(0));
-        let mut i = 0u8;
-        while i < 8 {
-            m.insert(Tagged { id: i, tag: 1 }, i);
-            i += 1;
-        }
-        assert!(m.verif_state().old.is_some());
-        let mut last = 0u8;
-        for (k, _) in m.iter() {
-            last = k.id; // iteration ends with the old table
-        }
-        m.extend(Some((Tagged { id: last, tag: 2 }, 99u8)));
-        assert!(m.len() == 8);
-        for (k, v) in m.iter() {
-            assert!(k.tag == 1);
-            assert!(k.id != last || *v == 99);
-        }
-    }
-
     /// C01: Extend<(&K, &V)> inserts every pair, also from an iterator whose size_hint lower bound is 0
     #[kani::proof]
     #[kani::unwind(6)]
